@@ -159,6 +159,9 @@ def scan(ctx, prog, rep, cfgd, control):
                         seen.add(key)
                         n_narrow += 1
                         ek = skey(f, canon(s))
+                        uk = "%s|%s" % (os.path.basename(f.unit.name), ek.split("|", 1)[1])
+                        if uk in cfgd.get("narrowings_64_to_32", {}):
+                            ek = uk
                         sc = strip(s)
                         if sc.get("kind") == "BinaryOperator" and sc.get("opcode") == "%" and des(strip(children(sc)[1])).replace("const ", "") == "int":
                             rep.holds("M2", x, f, "narrowing of %s" % pretty(canon(s))[:60], "a remainder modulo an int fits an int")
